@@ -59,7 +59,26 @@ def microOut (s : Micro.St) : String :=
   let l := s.log.map (fun p => s!"{p.1}={showMicroOutcome p.2}")
   (if l.isEmpty then "-" else ",".intercalate l) ++ s!" up={if s.up then 1 else 0}"
 
+def parseQueue (t : String) : Option Queue.Ev :=
+  match t.splitOn ":" with
+  | ["i", id] => id.toNat?.map .issue
+  | ["a"] => some .answer
+  | ["l"] => some .lose
+  | ["r"] => some .reconnect
+  | ["t"] => some .tick
+  | _ => none
+
+/-- `rq.queue <g|u> <events>`: what was written (id@connection), then the outcomes in the order the callers finished -/
+def queueOut (s : Queue.St) : String :=
+  let w := s.sent.map (fun p => s!"{p.1}@{p.2.1}")
+  let l := s.log.map (fun p => s!"{p.1}=" ++ (match p.2 with
+    | .ok c => s!"ok@{c}"
+    | .disconnected => "disc"))
+  "sent=" ++ (if w.isEmpty then "-" else ",".intercalate w) ++ " log=" ++ (if l.isEmpty then "-" else ",".intercalate l)
+
 def handle : List String → Option String
+  | "rq.queue" :: g :: toks =>
+    (toks.mapM parseQueue).map fun evs => queueOut (Queue.run (g == "g") {} (evs ++ [.tick]))
   | "rq.run" :: lim :: toks =>
     (toks.mapM parseEv).map fun evs => " ; ".intercalate (runAll (init lim.toNat!) evs [])
   | "rq.micro" :: toks =>
